@@ -1,5 +1,6 @@
 import Sck.Proofs.Rsd
 import Sck.Proofs.Bvn3
+import Sck.Proofs.BvnFull3
 
 /-! # C07 — random serial dictatorship and the eating lottery
 
@@ -99,6 +100,57 @@ theorem lottery_residual_le (n : ℕ) (X : List (List Rat)) (perms : List (List 
     matGet R i j ≤ matGet X i j :=
   bvnReplay_residual_le X perms zs R hrep i j hi hj
 
+/-! ## The eating lottery, end to end
+
+`SimultaneousEating.scf(profile, speeds)` = `Eat.eat` (the eating matrix `M`, C05), then
+`birkhoff_von_neumann(M)` = `bvnFull n M` (the loop with the real matching oracle, C06/C09), then one index
+`k` drawn with probability proportional to the coefficient `out[k].1`, and the answer
+`np.argmax(P_k, axis=1)` = `out[k].2`. -/
+
+/-- **End to end.** For a well-formed complete profile of `n ≥ 1` agents with positive speeds:
+the eating process terminates with a matrix `M` that is balanced with common sum `1` (bistochastic); the
+decomposition loop with the real oracle succeeds on it with `1 ≤ |out| ≤ n²` terms whose coefficients are
+strictly positive, add up to `1` (they are the probabilities handed to the draw) and reproduce `M` exactly;
+and for EVERY index `k` the draw can return, the allocation `σ_k` is a bijection of `0..n-1` (no item is
+given twice, every agent gets one) in which every agent `i` receives an item of which it ate a strictly
+positive share, `0 < M[i][σ_k i]`.
+(`n = 0` is excluded: there `M = []`, the decomposition is empty, its coefficients sum to `0`, and
+`np.random.choice(0, …)` raises.) -/
+theorem C07_lottery_end_to_end (n : ℕ) (P : List (List ℕ)) (speeds : List Rat) (hn : 0 < n)
+    (hwf : Eat.eatWfB n P speeds = true) :
+    ∃ M out, Eat.eat n P speeds = some M ∧ isBalancedB n M = some 1 ∧ bvnFull n M = .ok out ∧
+      0 < out.length ∧ out.length ≤ n * n ∧ (∀ e ∈ out, 0 < e.1) ∧ sumList (out.map (·.1)) = 1 ∧
+      (∀ i j, i < n → j < n → reconEntry n (out.map (·.1)) (out.map (·.2)) i j = matGet M i j) ∧
+      ∀ k (hk : k < out.length),
+        out[k].2.length = n ∧ (∀ i, i < n → out[k].2.getD i n < n) ∧
+        (∀ i i', i < n → i' < n → out[k].2.getD i n = out[k].2.getD i' n → i = i') ∧
+        (∀ j, j < n → ∃ i, i < n ∧ out[k].2.getD i n = j) ∧
+        ∀ i, i < n → 0 < matGet M i (out[k].2.getD i n) := by
+  obtain ⟨M, hM, hbal⟩ := eat_balanced hn hwf
+  obtain ⟨out, hout, hle, hpos, hperm, hsum, hrecon⟩ :=
+    bvnWith_spec n (matchingPairs n) (matchingPairs_ok n) M 1 hbal
+  refine ⟨M, out, hM, hbal, hout, out_nonempty_of_sum_one out hsum, hle, hpos, hsum, hrecon, ?_⟩
+  intro k hk
+  obtain ⟨hp, hs⟩ := hperm _ (List.getElem_mem hk)
+  obtain ⟨h1, h2, h3, h4⟩ := isPermB_bij _ hp
+  exact ⟨h1, h2, h3, h4, hs⟩
+
+/-- the same for `ProbabilisticSerial.scf` (unit speeds) -/
+theorem C07_ps_lottery_end_to_end (n : ℕ) (P : List (List ℕ)) (hn : 0 < n)
+    (hwf : Eat.eatWfB n P (List.replicate n 1) = true) :
+    ∃ M out, Eat.ps n P = some M ∧ isBalancedB n M = some 1 ∧ bvnFull n M = .ok out ∧
+      0 < out.length ∧ out.length ≤ n * n ∧ (∀ e ∈ out, 0 < e.1) ∧ sumList (out.map (·.1)) = 1 ∧
+      (∀ i j, i < n → j < n → reconEntry n (out.map (·.1)) (out.map (·.2)) i j = matGet M i j) ∧
+      ∀ k (hk : k < out.length),
+        out[k].2.length = n ∧ (∀ i, i < n → out[k].2.getD i n < n) ∧
+        (∀ i i', i < n → i' < n → out[k].2.getD i n = out[k].2.getD i' n → i = i') ∧
+        (∀ j, j < n → ∃ i, i < n ∧ out[k].2.getD i n = j) ∧
+        ∀ i, i < n → 0 < matGet M i (out[k].2.getD i n) :=
+  C07_lottery_end_to_end n P (List.replicate n 1) hn hwf
+
+/-- `Eat.mget` (used in C05) and `matGet` (used here) are the same entry accessor -/
+theorem C07_mget_eq_matGet (X : List (List Rat)) (i j : ℕ) : Eat.mget X i j = matGet X i j := rfl
+
 /-! ## Non-vacuity -/
 
 /-- an incomplete 3-agent / 3-item profile: agent 2 finds item 2 unacceptable and ends up unallocated -/
@@ -123,3 +175,13 @@ example :
 #print axioms rsd_exactly
 #print axioms lottery_injective
 #print axioms lottery_in_support
+
+/-- the hypotheses of `C07_lottery_end_to_end` on the 3-agent instance of C05, and the lottery it defines:
+the eating matrix, and the decomposition computed by the real loop (four possible allocations) -/
+example : Eat.eatWfB 3 [[1,2,3],[1,2,3],[2,1,3]] [1,1,1] = true ∧ 0 < 3 := by decide +kernel
+example : (match bvnFull 3 [[1/2, 1/6, 1/3], [1/2, 1/6, 1/3], [0, 2/3, 1/3]] with
+    | .ok out => some out | .error _ => none) =
+    some [(1/6, [0, 1, 2]), (1/3, [0, 2, 1]), (1/6, [1, 0, 2]), (1/3, [2, 0, 1])] ∧
+    isBalancedB 3 [[1/2, 1/6, 1/3], [1/2, 1/6, 1/3], [0, 2/3, 1/3]] = some 1 := by decide +kernel
+
+#print axioms C07_lottery_end_to_end
